@@ -28,7 +28,15 @@ THE SUBSET
               `not` over such tests (operands after the first must be free of calls that can raise); conditional
               expressions `a if c else b`
   calls       other functions of the same module that are themselves inside the subset (positional / keyword
-              arguments, int defaults); recursion is outside the subset
+              arguments, int defaults), and functions of a sibling module translated in the same run that are
+              imported by `from ..module import name`; recursion is outside the subset
+  constants   a module-level `NAME = <int literal>` that is bound exactly once in the module (and never declared
+              `global`) may be read, also as a parameter default; it is inlined
+  more ints   `int.from_bytes(x, 'big')`
+  local bufs  `name = bytearray(n)` (n an int expression) makes `name` a local buffer: it may be written with
+              struct.pack_into / passed to functions that write to it / spliced with `name[a:] = x`, `name[a:b] = x`,
+              under the same aliasing rules as a buffer parameter (no second name, slices only where they are
+              consumed at once); the name `_` may be used as an assignment target
   buffers     a parameter that the function (or a function it is passed to) writes through `struct.pack_into` is a
               MUTATED buffer: the Lean function then returns the final contents of that buffer next to the result
               (`Except PyErr (result × Bytes)`).  Such a parameter may only be rebound by `p = memoryview(p)`, may be
@@ -118,9 +126,12 @@ def ann_type(node):
 
 
 class Sig:
-    def __init__(self, fn):
+    def __init__(self, fn, consts=None, lean_prefix=''):
         self.fn = fn
         self.name = fn.name
+        self.consts = consts or {}
+        self.lean_name = lean_prefix + ident(fn.name)     # how translated code refers to it
+        self.done = False                                 # translated successfully
         self.error = None
         self.params = []          # (name, type, default literal | None)
         self.ret = None
@@ -146,9 +157,13 @@ class Sig:
                 raise Untranslatable(f'parameter {p.arg!r} without an int / byte-string annotation', p)
             dv = None
             if d is not None:
-                if not (isinstance(d, ast.Constant) and type(d.value) is int and t == INT):
-                    raise Untranslatable(f'default value of parameter {p.arg!r} that is not an int literal', d)
-                dv = d.value
+                if isinstance(d, ast.Constant) and type(d.value) is int and t == INT:
+                    dv = d.value
+                elif isinstance(d, ast.Name) and d.id in self.consts and t == INT:
+                    dv = self.consts[d.id]          # (defaults are evaluated once, at definition time)
+                else:
+                    raise Untranslatable(f'default value of parameter {p.arg!r} that is not an int literal / '
+                                         'module-level int constant', d)
             self.params.append((p.arg, t, dv))
         self.ret = ann_type(fn.returns)
         if self.ret is None:
@@ -178,6 +193,10 @@ def compute_mutated(sigs):
                 continue
             names = [p[0] for p in s.params]
             for n in ast.walk(s.fn):
+                if isinstance(n, ast.Subscript) and isinstance(n.ctx, ast.Store) and isinstance(n.value, ast.Name) \
+                        and n.value.id in names and names.index(n.value.id) not in s.mutated:
+                    s.mutated.add(names.index(n.value.id))      # p[i] = x
+                    changed = True
                 if not isinstance(n, ast.Call):
                     continue
                 hit = []
@@ -201,10 +220,12 @@ def compute_mutated(sigs):
 
 
 class FnTranslator:
-    def __init__(self, sig, sigs, ok):
+    def __init__(self, sig, sigs, consts=None):
         self.sig = sig
-        self.sigs = sigs
-        self.ok = ok                  # names of functions already translated
+        self.sigs = sigs              # name in this module -> Sig (own functions and imported ones)
+        self.consts = consts or {}    # module-level int constants
+        self.localbufs = set()        # local names bound to a fresh bytearray(n): buffers this function owns
+        self.fresh = None
         self.ntmp = 0
         self.used = {n.id for n in ast.walk(sig.fn) if isinstance(n, ast.Name)} | {p[0] for p in sig.params}
         self.mut = [sig.params[i][0] for i in sorted(sig.mutated)]
@@ -261,8 +282,13 @@ class FnTranslator:
                 return '([' + ', '.join(str(b) for b in node.value) + '] : Bytes)', BYTES
             raise Untranslatable(f'constant of type {type(node.value).__name__}', node)
         if isinstance(node, ast.Name):
+            if node.id == '_':
+                raise Untranslatable('reading the name `_`', node)
             if node.id not in env:
-                raise Untranslatable(f'name {node.id!r} that is not a parameter or a local variable', node)
+                if node.id in self.consts:
+                    return f'({self.consts[node.id]} : Int)', INT
+                raise Untranslatable(f'name {node.id!r} that is not a parameter, a local variable or a module-level '
+                                     'int constant', node)
             return ident(node.id), env[node.id]
         if isinstance(node, ast.Tuple):
             parts = [self.expr(e, env, pre) for e in node.elts]
@@ -317,7 +343,7 @@ class FnTranslator:
 
     def buffer_name(self, node):
         """the mutated-buffer parameter a node denotes (`p` or `memoryview(p)`), or None"""
-        if isinstance(node, ast.Name) and node.id in self.mut:
+        if isinstance(node, ast.Name) and (node.id in self.mut or node.id in self.localbufs):
             return node.id
         if (isinstance(node, ast.Call) and isinstance(node.func, ast.Name) and node.func.id == 'memoryview'
                 and len(node.args) == 1 and not node.keywords):
@@ -406,18 +432,35 @@ class FnTranslator:
                 raise Untranslatable('struct.pack_into call shape', node)
             ws = fmt_widths(node.args[0])
             b = node.args[1]
-            if not (isinstance(b, ast.Name) and b.id in self.mut):
-                raise Untranslatable('struct.pack_into into something that is not a buffer parameter given by name', node)
+            if not (isinstance(b, ast.Name) and (b.id in self.mut or b.id in self.localbufs)):
+                raise Untranslatable('struct.pack_into into something that is not a buffer parameter / a local '
+                                     'bytearray(n) given by name', node)
             o, to = self.expr(node.args[2], env, pre)
             vals = [self.expr(a, env, pre) for a in node.args[3:]]
             if to != INT or any(t != INT for _, t in vals):
                 raise Untranslatable('struct.pack_into argument types', node)
             pre.append(f"let {ident(b.id)} ← Py.packInto {ws} [{', '.join(v for v, _ in vals)}] {ident(b.id)} {o}")
             return None, None           # value None
+        if (isinstance(f, ast.Attribute) and f.attr == 'from_bytes' and isinstance(f.value, ast.Name)
+                and f.value.id == 'int' and 'int' not in env):
+            # int.from_bytes(x, 'big') / int.from_bytes(x, byteorder='big'): unsigned, big-endian
+            order = node.args[1] if len(node.args) == 2 and not node.keywords else \
+                node.keywords[0].value if len(node.args) == 1 and len(node.keywords) == 1 \
+                and node.keywords[0].arg == 'byteorder' else None
+            if not (isinstance(order, ast.Constant) and order.value == 'big'):
+                raise Untranslatable("int.from_bytes other than (x, 'big')", node)
+            x, t = self.expr(node.args[0], env, pre, slice_ok=True)
+            if t != BYTES:
+                raise Untranslatable('int.from_bytes of something that is not a byte string', node)
+            return f'(Py.intFromBytesBig {x})', INT
         if isinstance(f, ast.Name) and f.id in ('len', 'bytes', 'bytearray', 'memoryview', 'int') and f.id not in env:
             if node.keywords or len(node.args) != 1:
                 raise Untranslatable(f'{f.id}() call shape', node)
             x, t = self.expr(node.args[0], env, pre, slice_ok=(f.id in ('len', 'bytes', 'bytearray')))
+            if f.id == 'bytearray' and t == INT:
+                n, _ = self.bind(pre, f'Py.bytearrayOfSize {x}', BYTES)
+                self.fresh = n                 # (an assignment `name = bytearray(n)` makes `name` a local buffer)
+                return n, BYTES
             if f.id == 'int':
                 if t != INT:
                     raise Untranslatable('int() of something that is not an int', node)
@@ -427,9 +470,9 @@ class FnTranslator:
             return (f'(Py.len {x})', INT) if f.id == 'len' else (x, BYTES)
         if isinstance(f, ast.Name) and f.id in self.sigs and f.id not in env:
             g = self.sigs[f.id]
-            if f.id == self.sig.name:
+            if g is self.sig:
                 raise Untranslatable('recursion', node)
-            if f.id not in self.ok:
+            if not g.done:
                 raise Untranslatable(f'call of {f.id}(), which is outside the subset', node)
             args = [None] * len(g.params)
             if len(node.args) > len(g.params):
@@ -451,15 +494,15 @@ class FnTranslator:
                     terms.append(f'({dv} : Int)')
                     continue
                 if i in g.mutated:
-                    if not (isinstance(a, ast.Name) and a.id in self.mut):
+                    if not (isinstance(a, ast.Name) and (a.id in self.mut or a.id in self.localbufs)):
                         raise Untranslatable(f'buffer argument of {f.id}() (which writes to it) that is not a buffer '
-                                             'parameter given by name', node)
+                                             'parameter / a local bytearray(n) given by name', node)
                     outs.append(a.id)
                 x, t = self.expr(a, env, pre)
                 if t != pt:
                     raise Untranslatable(f'argument {pn!r} of {f.id}() has type {t}, expected {pt}', node)
                 terms.append(x)
-            callee = f"{ident(f.id)} {' '.join(terms)}" if terms else ident(f.id)
+            callee = f"{g.lean_name} {' '.join(terms)}" if terms else g.lean_name
             if not g.mutated:
                 return self.bind(pre, callee, g.ret)
             if not top:
@@ -546,35 +589,51 @@ class FnTranslator:
             if len(s.targets) != 1:
                 raise Untranslatable('chained assignment', s)
             tgt = s.targets[0]
+            if isinstance(tgt, ast.Subscript):
+                return self.store(tgt, s.value, env, pad) + self.block(rest, env, ind)
             if isinstance(tgt, ast.Name) and tgt.id in self.mut:
                 if self.buffer_name(s.value) == tgt.id and not isinstance(s.value, ast.Name):
                     return self.block(rest, env, ind)                  # p = memoryview(p): the same buffer
                 raise Untranslatable(f'rebinding of the buffer parameter {tgt.id!r}', s)
+            if self.buffer_name(s.value) is not None:
+                raise Untranslatable('a second name for a buffer this function writes to (alias)', s)
+            self.fresh = None
             if isinstance(s.value, ast.Call):
                 x, t = self.call_top(s.value, env, pre)
             else:
                 x, t = self.expr(s.value, env, pre)
             if x is None:
                 raise Untranslatable('assignment of the result of struct.pack_into', s)
+            is_fresh = self.fresh is not None and x == self.fresh
+            if isinstance(tgt, ast.Name) and tgt.id in self.localbufs and not is_fresh:
+                raise Untranslatable(f'rebinding of the local buffer {tgt.id!r}', s)
+            if is_fresh:
+                if not isinstance(tgt, ast.Name) or tgt.id in env and tgt.id not in self.localbufs:
+                    raise Untranslatable('bytearray(n) that is not assigned to a new local name', s)
+                self.localbufs.add(tgt.id)
             lines = [pad + l for l in pre]
             if isinstance(tgt, ast.Name):
                 env[tgt.id] = t
                 lines.append(pad + f'let {ident(tgt.id)} : {lean_type(t)} := {x}')
             elif isinstance(tgt, ast.Tuple) and all(isinstance(e, ast.Name) for e in tgt.elts):
                 names = [e.id for e in tgt.elts]
-                if not isinstance(t, tuple) or len(t[1]) != len(names) or len(set(names)) != len(names):
+                if not isinstance(t, tuple) or len(t[1]) != len(names):
                     raise Untranslatable('tuple assignment whose sides do not match', s)
-                if any(n in self.mut for n in names):
-                    raise Untranslatable('rebinding of a buffer parameter', s)
+                names_real = [n for n in names if n != '_']
+                if len(set(names_real)) != len(names_real):
+                    raise Untranslatable('tuple assignment with a repeated name', s)
+                if any(n in self.mut or n in self.localbufs for n in names):
+                    raise Untranslatable('rebinding of a buffer', s)
                 # (a pattern `let`, not projections: the names are then substituted uniformly in what follows)
                 for nm, tt in zip(names, t[1]):
-                    env[nm] = tt
+                    if nm != '_':
+                        env[nm] = tt
                 lines.append(pad + f"let ({', '.join(ident(nm) for nm in names)}) : {lean_type(t)} := {x}")
             else:
                 raise Untranslatable('assignment target that is not a name / tuple of names', s)
             return lines + self.block(rest, env, ind)
         if isinstance(s, ast.AugAssign):
-            if not isinstance(s.target, ast.Name) or s.target.id in self.mut:
+            if not isinstance(s.target, ast.Name) or s.target.id in self.mut or s.target.id in self.localbufs:
                 raise Untranslatable('augmented assignment target', s)
             x, t = self.binop(ast.copy_location(ast.BinOp(left=ast.Name(id=s.target.id, ctx=ast.Load()), op=s.op,
                                                           right=s.value), s), env, pre)
@@ -596,6 +655,29 @@ class FnTranslator:
             b = self.block(list(s.orelse) + ([] if else_t else rest), env, ind + 1)
             return [pad + l for l in pre] + [pad + f'if {c} then'] + a + [pad + 'else'] + b
         raise Untranslatable(f'statement {type(s).__name__}', s)
+
+    def store(self, tgt, value, env, pad):
+        """`b[a:b] = x` / `b[a:] = x` on a local bytearray (which may change its size)"""
+        if not (isinstance(tgt.value, ast.Name) and (tgt.value.id in self.mut or tgt.value.id in self.localbufs)):
+            raise Untranslatable('item / slice assignment to something that is not a buffer given by name', tgt)
+        b = tgt.value.id
+        pre = []
+        sl = tgt.slice
+        if isinstance(sl, ast.Slice):
+            if b not in self.localbufs:
+                raise Untranslatable('slice assignment to a buffer parameter (bytearray and memoryview differ there)', tgt)
+            if sl.step is not None:
+                raise Untranslatable('slice assignment with a step', tgt)
+            lo = self.expr(sl.lower, env, pre) if sl.lower is not None else ('(0 : Int)', INT)
+            hi = self.expr(sl.upper, env, pre) if sl.upper is not None else None
+            if self.buffer_name(value) == b:
+                raise Untranslatable('slice assignment of a buffer to itself', tgt)
+            v, tv = self.expr(value, env, pre, slice_ok=True)
+            if lo[1] != INT or (hi is not None and hi[1] != INT) or tv != BYTES:
+                raise Untranslatable('slice assignment argument types', tgt)
+            rhs = f'Py.setSliceFrom {ident(b)} {lo[0]} {v}' if hi is None else f'Py.setSlice {ident(b)} {lo[0]} {hi[0]} {v}'
+            return [pad + l for l in pre] + [pad + f'let {ident(b)} : Bytes := {rhs}']
+        raise Untranslatable('item assignment `b[i] = x` (the order of its IndexError / ValueError checks is not modelled)', tgt)
 
     def call_top(self, node, env, pre):
         return self.call(node, env, pre, top=True)
@@ -639,79 +721,115 @@ class FnTranslator:
         return [doc, f'def {ident(sig.name)} {params} : {self.ret_type()} := do'] + lines
 
 
-def translate_module(path, wanted, namespace, relpath):
-    """Lean text for the functions `wanted` (names, in this order after their callees) of the module at `path`"""
+def module_bindings(tree):
+    """name -> list of the statements that bind it at module scope (def, class, import, assignment, for, with, ...);
+    names declared `global` inside a function are returned in the second result (they can be rebound at run time)"""
+    binds, dirty = {}, set()
+
+    def add(name, node):
+        binds.setdefault(name, []).append(node)
+
+    def targets(t, node):
+        for x in ast.walk(t):
+            if isinstance(x, ast.Name) and isinstance(x.ctx, (ast.Store, ast.Del)):
+                add(x.id, node)
+
+    def walk(nodes):
+        for n in nodes:
+            if isinstance(n, (ast.FunctionDef, ast.AsyncFunctionDef, ast.ClassDef)):
+                add(n.name, n)
+                for x in ast.walk(n):
+                    if isinstance(x, ast.Global):
+                        dirty.update(x.names)
+                continue
+            if isinstance(n, (ast.Import, ast.ImportFrom)):
+                for al in n.names:
+                    add((al.asname or al.name).split('.')[0], n)
+                continue
+            for x in ast.walk(n):
+                if isinstance(x, (ast.Name,)) and isinstance(x.ctx, (ast.Store, ast.Del)):
+                    add(x.id, n)
+                if isinstance(x, (ast.Import, ast.ImportFrom)) and x is not n:
+                    for al in x.names:
+                        add((al.asname or al.name).split('.')[0], x)
+                if isinstance(x, (ast.FunctionDef, ast.AsyncFunctionDef, ast.ClassDef)):
+                    add(x.name, x)
+    walk(tree.body)
+    return binds, dirty
+
+
+def translate_module(path, wanted, namespace, relpath, imports=None):
+    """Lean text for the functions `wanted` (each after its callees) of the module at `path`.
+    imports: {(level, module name): (sigs of that module as returned here, Lean prefix, Lean module to import)} - the
+    sibling modules whose translated functions this module may call after `from <..module> import name`."""
+    imports = imports or {}
     source = open(path, encoding='utf-8').read()
     tree = ast.parse(source)
-    defs = {}
-    dup = set()
+    binds, dirty = module_bindings(tree)
+
+    def stable(name):
+        """bound exactly once at module scope, by a statement directly in the module body, never declared global"""
+        return len(binds.get(name, [])) == 1 and binds[name][0] in tree.body and name not in dirty
+    # module-level int constants: NAME = <int literal>
+    consts = {}
     for n in tree.body:
-        if isinstance(n, (ast.FunctionDef, ast.AsyncFunctionDef)):
-            if n.name in defs:
-                dup.add(n.name)
-            defs[n.name] = n
-    # anything that rebinds one of the names at module level makes the `def` we read not the function that runs
-    rebound = set()
-    for n in ast.walk(tree):
-        if isinstance(n, (ast.Assign, ast.AugAssign, ast.AnnAssign)):
-            for t in (n.targets if isinstance(n, ast.Assign) else [n.target]):
-                for x in ast.walk(t):
-                    if isinstance(x, ast.Name) and x.id in defs:
-                        rebound.add(x.id)
-        if isinstance(n, (ast.Global, ast.Nonlocal)):
-            rebound.update(x for x in n.names if x in defs)
-        if isinstance(n, (ast.Import, ast.ImportFrom)):
-            for al in n.names:
-                nm = (al.asname or al.name).split('.')[0]
-                if nm in defs:
-                    rebound.add(nm)
-                if nm == 'struct' and not (isinstance(n, ast.Import) and al.name == 'struct' and al.asname is None):
-                    rebound.add('struct')
-        if isinstance(n, ast.ClassDef) and n.name in defs:
-            rebound.add(n.name)
+        if (isinstance(n, ast.Assign) and len(n.targets) == 1 and isinstance(n.targets[0], ast.Name)
+                and isinstance(n.value, ast.Constant) and type(n.value.value) is int and stable(n.targets[0].id)):
+            consts[n.targets[0].id] = n.value.value
+    defs = {n.name: n for n in tree.body if isinstance(n, (ast.FunctionDef, ast.AsyncFunctionDef))}
     # `struct` must be the standard module: imported plainly at module level and never bound to anything else
-    struct_ok = any(isinstance(n, ast.Import) and any(a.name == 'struct' and a.asname is None for a in n.names)
-                    for n in tree.body) and 'struct' not in rebound and 'struct' not in defs
+    struct_ok = stable('struct') and isinstance(binds['struct'][0], ast.Import) and \
+        any(a.name == 'struct' and a.asname is None for a in binds['struct'][0].names)
     for n in ast.walk(tree):
         if isinstance(n, ast.Name) and n.id == 'struct' and not isinstance(n.ctx, ast.Load):
             struct_ok = False
         if isinstance(n, ast.arg) and n.arg == 'struct':
             struct_ok = False
-        if isinstance(n, (ast.ClassDef, ast.FunctionDef, ast.AsyncFunctionDef)) and n.name == 'struct':
-            struct_ok = False
-    sigs = {k: Sig(v) for k, v in defs.items()}
-    compute_mutated(sigs)
+    sigs = {k: Sig(v, consts) for k, v in defs.items()}
+    lean_imports = ['NdnModel.PySem']
+    for n in tree.body:
+        if isinstance(n, ast.ImportFrom) and (n.level, n.module) in imports:
+            other, prefix, lean_mod = imports[(n.level, n.module)]
+            for al in n.names:
+                local = al.asname or al.name
+                if al.name in other and stable(local) and local not in sigs:
+                    sigs[local] = other[al.name]          # (its lean_name is already qualified)
+                    if lean_mod not in lean_imports:
+                        lean_imports.append(lean_mod)
+    compute_mutated({k: v for k, v in sigs.items() if k in defs})
     out = [f'/- GENERATED on every run by harness/py2lean.py from the text of {relpath} (ast; nothing is executed and no',
-           '   shape is pattern-matched: each construct is mapped to lean/NdnModel/PySem.lean).  Do not edit. -/',
-           'import NdnModel.PySem', 'set_option linter.unusedVariables false', f'namespace {namespace}', 'open Ndn', '']
-    ok, status = [], {}
+           '   shape is pattern-matched: each construct is mapped to lean/NdnModel/PySem.lean).  Do not edit. -/']
+    out += [f'import {m}' for m in lean_imports]
+    out += ['set_option linter.unusedVariables false', f'namespace {namespace}', 'open Ndn', '']
+    status = {}
 
     def visit(name, stack):
         if name in status:
             return
-        if name not in sigs:
+        if name not in defs:
             status[name] = 'no module-level def of that name'
+            out.append(f'/- `{name}` is NOT inside the translated subset: no module-level def of that name -/')
+            out.append(f'def {ident(name)}_translated : Bool := false')
+            out.append('')
             return
         s = sigs[name]
         try:
-            if name in dup:
-                raise Untranslatable('the name is defined more than once in the module')
-            if name in rebound:
-                raise Untranslatable('the name is rebound at module level')
+            if not stable(name):
+                raise Untranslatable('the name is bound more than once in the module (or declared global)')
             if s.error:
                 raise Untranslatable(s.error)
             uses_struct = any(isinstance(n, ast.Name) and n.id == 'struct' for n in ast.walk(s.fn))
             if uses_struct and not struct_ok:
                 raise Untranslatable('`struct` is not the plainly imported standard module in this file')
             for n in ast.walk(s.fn):
-                if isinstance(n, ast.Call) and isinstance(n.func, ast.Name) and n.func.id in sigs and n.func.id != name:
+                if isinstance(n, ast.Call) and isinstance(n.func, ast.Name) and n.func.id in defs and n.func.id != name:
                     if n.func.id in stack:
                         raise Untranslatable('recursion')
                     visit(n.func.id, stack + [name])
-            tr = FnTranslator(s, sigs, set(ok))
+            tr = FnTranslator(s, sigs, consts)
             lines = tr.translate(source, relpath)
             status[name] = None
-            ok.append(name)
+            s.done = True
             out.extend(lines)
             out.append(f'def {ident(name)}_translated : Bool := true')
             out.append('')
@@ -723,25 +841,58 @@ def translate_module(path, wanted, namespace, relpath):
     for w in wanted:
         visit(w, [])
     out.append(f'end {namespace}')
-    return '\n'.join(out) + '\n', status
+    for k in defs:
+        sigs[k].lean_name = namespace.split('.')[-1] + '.' + ident(k)      # for modules that import this one
+    return '\n'.join(out) + '\n', status, {k: sigs[k] for k in defs}
 
 
 TLV_VAR_WANTED = ['get_tl_num_size', 'write_tl_num', 'pack_uint_bytes', 'parse_tl_num', 'parse_and_check_tl', 'shrink_length']
 
 
+COMPONENT_WANTED = ['get_type', 'get_value', 'to_number', 'from_bytes', 'from_number', 'from_segment', 'from_byte_offset',
+                    'from_sequence_num', 'from_version', 'from_timestamp']
+
+
+def _unreadable(rel, namespace, wanted, e):
+    # the source cannot even be read: nothing is translated (and nothing that was translated before is kept)
+    return '\n'.join([f'/- GENERATED by harness/py2lean.py: {rel} could not be read ({type(e).__name__}) -/',
+                      f'namespace {namespace}'] + [f'def {ident(w)}_translated : Bool := false' for w in wanted]
+                     + [f'end {namespace}', ''])
+
+
+def generate_all(repo):
+    """{'TlvVar': text of lean/NdnGen/TlvVar.lean, 'Component': text of lean/NdnGen/Component.lean} for the tree at `repo`"""
+    rel = 'src/ndn/encoding/tlv_var.py'
+    relc = 'src/ndn/encoding/name/Component.py'
+    sigs = {}
+    try:
+        text, _, sigs = translate_module(os.path.join(repo, rel), TLV_VAR_WANTED, 'Ndn.Gen.TlvVar', rel)
+    except (OSError, SyntaxError, ValueError, RecursionError) as e:
+        text = _unreadable(rel, 'Ndn.Gen.TlvVar', TLV_VAR_WANTED, e)
+    try:
+        textc, _, _ = translate_module(os.path.join(repo, relc), COMPONENT_WANTED, 'Ndn.Gen.Component', relc,
+                                       imports={(2, 'tlv_var'): (sigs, 'TlvVar.', 'NdnGen.TlvVar')})
+        textc = textc.replace('open Ndn\n', 'open Ndn Ndn.Gen\n', 1)
+    except (OSError, SyntaxError, ValueError, RecursionError) as e:
+        textc = _unreadable(relc, 'Ndn.Gen.Component', COMPONENT_WANTED, e)
+    return {'TlvVar': text, 'Component': textc}
+
+
 def generate(repo):
     """text of lean/NdnGen/TlvVar.lean for the tree at `repo`"""
-    rel = 'src/ndn/encoding/tlv_var.py'
-    try:
-        text, _ = translate_module(os.path.join(repo, rel), TLV_VAR_WANTED, 'Ndn.Gen.TlvVar', rel)
-    except (OSError, SyntaxError, ValueError, RecursionError) as e:
-        # the source cannot even be read: nothing is translated (and nothing that was translated before is kept)
-        text = '\n'.join([f'/- GENERATED by harness/py2lean.py: {rel} could not be read ({type(e).__name__}) -/',
-                          'namespace Ndn.Gen.TlvVar']
-                         + [f'def {ident(w)}_translated : Bool := false' for w in TLV_VAR_WANTED]
-                         + ['end Ndn.Gen.TlvVar', ''])
-    return text
+    return generate_all(repo)['TlvVar']
+
+
+def write_generated(repo):
+    """regenerate lean/NdnGen/TlvVar.lean and lean/NdnGen/Component.lean from the tree at `repo` (called from the
+    extract() of the properties whose theorems mention them: C08, C09), under the build lock"""
+    import lib
+    texts = generate_all(repo)
+    with lib.Lock(os.path.join(lib.LEAN, '.build.lock')):
+        for k, t in texts.items():
+            lib.write_if_changed(os.path.join(lib.LEAN, 'NdnGen', k + '.lean'), t)
 
 
 if __name__ == '__main__':
-    sys.stdout.write(generate(sys.argv[1] if len(sys.argv) > 1 else os.environ.get('VERIF_REPO', '/repo')))
+    _all = generate_all(sys.argv[1] if len(sys.argv) > 1 else os.environ.get('VERIF_REPO', '/repo'))
+    sys.stdout.write(_all[sys.argv[2]] if len(sys.argv) > 2 else _all['TlvVar'] + _all['Component'])
